@@ -23,9 +23,9 @@ def render(v, base):
     return s
 
 
-def build(ctx):
+def build(ctx, alt=False):
     R = core.REPO
-    return ctx.cxx("drv_numconv", ["drv_numconv.cpp", R + "/igris/util/numconvert.c", R + "/compat/libc/stdlib/itoa.c", R + "/igris/dprint/dprint_func_impl.c"])
+    return ctx.cxx("drv_numconv" + ("_alt" if alt else ""), ["drv_numconv.cpp", R + "/igris/util/numconvert.c", R + "/compat/libc/stdlib/itoa.c", R + "/igris/dprint/dprint_func_impl.c"], alt=alt)
 
 
 def boundary(w):
@@ -103,6 +103,11 @@ def check(ctx):
     ctx.samples.append({"calls": [script[1], script[len(script) // 2], script[-1]]})
     t = ctx.drive(drv, script, "numconv")
     bad = ctx.judge("NumTextTrace", [t], shards=16)
+    # the second build configuration (size-optimised, plain char unsigned) on part of the executions
+    ta = ctx.drive(build(ctx, alt=True), core.subset_executions(script, ctx.seed, 1.0 if ctx.thorough else 0.34), "numconv_alt")
+    bada = ctx.judge("NumTextTrace", [ta], shards=16)
+    for b in bada: b["driver"] = "drv_numconv@alt"
+    bad += bada
     for b in bad: b["driver"] = "drv_numconv"
     ctx.report(bad)
     ctx.assumptions += [
@@ -116,7 +121,7 @@ def check(ctx):
 
 def replay(ctx, path):
     d = json.load(open(path))
-    drv = build(ctx)
+    drv = build(ctx, alt=core.is_alt(d))
     e = d["event"]
     if e.get("e") == "Fault":
         return core.replay_fault(ctx, d, drv, "NumTextTrace", path)
